@@ -3,12 +3,16 @@ package gen
 import (
 	"fmt"
 	"math/big"
+	"reflect"
 	"sort"
 	"strconv"
 	"strings"
 	"time"
 
 	sdk "github.com/cosmos/cosmos-sdk/types"
+
+	base "github.com/regen-network/regen-ledger/x/ecocredit/v3/base/types/v1"
+	basket "github.com/regen-network/regen-ledger/x/ecocredit/v3/basket/types/v1"
 
 	"verif/harness/monitor"
 )
@@ -344,4 +348,67 @@ func (g *G) nextTime() time.Time {
 	default:
 		return g.now.Add(time.Duration(1+g.R.Intn(72)) * time.Hour)
 	}
+}
+
+// respell rewrites, one time in twelve, an address of the message into the other valid bech32 spelling (all upper
+// case).  ValidateBasic of Send / UpdateClassAdmin / UpdateProjectAdmin / UpdateCurator compares address STRINGS, so
+// "recipient = the sender's own address in upper case" passes it and reaches the handler as a self-send; most
+// governance handlers compare the authority as a string and must reject the upper-case spelling.
+func (g *G) respell(m sdk.Msg, note string) (sdk.Msg, string) {
+	if !g.R.Chance(1, 12) {
+		return m, note
+	}
+	up := strings.ToUpper
+	self := g.R.Bool()
+	switch x := m.(type) {
+	case *base.MsgSend:
+		c := *x
+		if self {
+			c.Recipient = up(x.Sender)
+			g.bump("spelling:self-send-upper-case")
+			return &c, note + " [recipient = the sender's own address in UPPER CASE]"
+		}
+		c.Recipient = up(x.Recipient)
+		g.bump("spelling:recipient-upper-case")
+		return &c, note + " [recipient in UPPER CASE]"
+	case *base.MsgUpdateClassAdmin:
+		c := *x
+		if self {
+			c.NewAdmin = up(x.Admin)
+		} else {
+			c.NewAdmin = up(x.NewAdmin)
+		}
+		g.bump("spelling:new-admin-upper-case")
+		return &c, note + " [new admin in UPPER CASE]"
+	case *base.MsgUpdateProjectAdmin:
+		c := *x
+		if self {
+			c.NewAdmin = up(x.Admin)
+		} else {
+			c.NewAdmin = up(x.NewAdmin)
+		}
+		g.bump("spelling:new-admin-upper-case")
+		return &c, note + " [new admin in UPPER CASE]"
+	case *basket.MsgUpdateCurator:
+		c := *x
+		if self {
+			c.NewCurator = up(x.Curator)
+		} else {
+			c.NewCurator = up(x.NewCurator)
+		}
+		g.bump("spelling:new-curator-upper-case")
+		return &c, note + " [new curator in UPPER CASE]"
+	}
+	// governance messages: the authority field
+	v := reflect.ValueOf(m)
+	if v.Kind() == reflect.Ptr && v.Elem().Kind() == reflect.Struct {
+		if f := v.Elem().FieldByName("Authority"); f.IsValid() && f.Kind() == reflect.String {
+			c := reflect.New(v.Elem().Type())
+			c.Elem().Set(v.Elem())
+			c.Elem().FieldByName("Authority").SetString(up(f.String()))
+			g.bump("spelling:authority-upper-case")
+			return c.Interface().(sdk.Msg), note + " [authority in UPPER CASE]"
+		}
+	}
+	return m, note
 }
